@@ -347,6 +347,9 @@ struct Net {
 	/// nodes whose user currently refuses payment events (handler returns ReplayEvent)
 	hold_events: Vec<bool>,
 	defer_drain: bool,
+	/// a node whose process is not running (between `kill` and the `crash` that restarts it): nothing of it is polled,
+	/// blocks mined meanwhile are only appended to its block source
+	down: Option<usize>,
 	/// HTLCs a node's user has been asked to place (HTLCIntercepted) and has not yet: (node, id, hash, next node, amount expected out)
 	intercepts: Vec<(usize, lightning::ln::channelmanager::InterceptId, usize, usize, u64)>,
 	/// payments sent over a node's intercept SCID: hash -> the node meant to receive the forward
@@ -365,6 +368,11 @@ struct Net {
 	/// broadcaster and the store it uses
 	sweepers: Vec<Option<(&'static Sweeper, &'static SweepBroadcaster, &'static lightning::util::test_utils::TestStore)>>,
 	mempool: Vec<(bitcoin::Transaction, String)>,
+	/// HTLC outputs a recipient claims on chain with the preimage, straight through its monitor (`claim_onchain`):
+	/// (outpoint, recipient, payment-hash id); the broadcaster of every transaction seen; claims already reported
+	onchain_claims: Vec<(bitcoin::OutPoint, usize, usize)>,
+	tx_owner: HashMap<bitcoin::Txid, usize>,
+	onchain_reported: HashSet<(usize, usize)>,
 	spent: HashSet<bitcoin::OutPoint>,
 	confirmed: HashSet<bitcoin::Txid>,
 	/// snapshot index remembered by a `save` script step (the manager the application wrote last)
@@ -438,7 +446,10 @@ impl Net {
 	fn mine_block(&mut self) {
 		let n = self.nodes.len();
 		let h0 = self.nodes[0].best_block_info().1;
-		if (1..n).any(|i| self.nodes[i].best_block_info().1 != h0) { self.ev(json!({"ev":"mine_skipped"})); return; }
+		// (a node that is down is told nothing: the blocks wait in its block source until it is restarted)
+		let tip = |s: &Self, i: usize| s.nodes[i].blocks.lock().unwrap().last().unwrap().1;
+		let h0 = if self.down == Some(0) { tip(self, 0) } else { h0 };
+		if (1..n).any(|i| (if self.down == Some(i) { tip(self, i) } else { self.nodes[i].best_block_info().1 }) != h0) { self.ev(json!({"ev":"mine_skipped"})); return; }
 		let newh = h0 + 1;
 		if self.confirmed.is_empty() { for (t, _) in self.funding_txids.iter() { self.confirmed.insert(*t); } }
 		let mut txs: Vec<bitcoin::Transaction> = Vec::new();
@@ -465,7 +476,23 @@ impl Net {
 		let mut k = 0;
 		self.mempool.retain(|m| { let keep = !taken.contains(&k) && !m.0.input.iter().any(|i| spent.contains(&i.previous_output)); k += 1; keep });
 		if !kinds.is_empty() || !self.settling { self.ev(json!({"ev":"block","n":1,"h":newh,"mined":kinds})); }
+		// a recipient's own spend of an HTLC output it was given the preimage for has confirmed: it took the money
+		for tx in txs.iter() {
+			let owner = self.tx_owner.get(&tx.compute_txid()).cloned();
+			for inp in tx.input.iter() {
+				let hit: Vec<(usize, usize)> = self.onchain_claims.iter().filter(|c| c.0 == inp.previous_output && Some(c.1) == owner).map(|c| (c.1, c.2)).collect();
+				for (node, h) in hit {
+					if self.onchain_reported.insert((node, h)) { self.ev(json!({"ev":"onchain_claimed","node":node,"hash":h,"h":newh})); }
+				}
+			}
+		}
 		for i in 0..n {
+			if self.down == Some(i) {
+				let prev = self.nodes[i].blocks.lock().unwrap().last().unwrap().0.block_hash();
+				let block = create_dummy_block(prev, newh, txs.clone());
+				self.nodes[i].blocks.lock().unwrap().push((block, newh));
+				continue;
+			}
 			let block = create_dummy_block(self.nodes[i].best_block_hash(), newh, txs.clone());
 			connect_block(&self.nodes[i], &block);
 			if let Some((sw, _, _)) = self.sweepers[i] {
@@ -542,6 +569,7 @@ impl Net {
 	fn drain_once(&mut self) {
 		let mut want_disc: Vec<(usize, usize)> = Vec::new();
 		for i in 0..self.nodes.len() {
+			if self.down == Some(i) { continue; }
 			let evs = self.nodes[i].node.get_and_clear_pending_msg_events();
 			for e in evs {
 				match e {
@@ -650,6 +678,7 @@ impl Net {
 				if self.extra_funding.iter().any(|f| f.compute_txid() == tx.compute_txid()) && !self.extra_broadcast.iter().any(|f| f.compute_txid() == tx.compute_txid()) {
 					self.extra_broadcast.push(tx.clone());
 				}
+				self.tx_owner.entry(tx.compute_txid()).or_insert(i);
 				if ty != "Funding" {
 					let txid = tx.compute_txid();
 					if !self.confirmed.contains(&txid) && !self.mempool.iter().any(|m| m.0.compute_txid() == txid) { self.mempool.push((tx.clone(), ty.clone())); }
@@ -665,6 +694,7 @@ impl Net {
 		}
 		// the application persists the manager whenever the library asks for it
 		for i in 0..self.nodes.len() {
+			if self.down == Some(i) { continue; }
 			if self.nodes[i].node.get_and_clear_needs_persistence() && !self.settling {
 				self.mgr_snaps[i].push(self.nodes[i].node.encode());
 				self.settle_dirty(i);
@@ -1113,6 +1143,18 @@ impl Net {
 		let before = self.log.lock().unwrap().len();
 		let n = self.nodes.len();
 		let mut did = true;
+		// nothing can be asked of a node that is down, and nobody can connect to it, until `crash` restarts it
+		if let Some(d) = self.down {
+			let names = |k: &str| op[k].as_u64() == Some(d as u64);
+			let restart = matches!(name, "crash" | "reload") && names("node");
+			let pay_there = matches!(name, "claim" | "fail") && op["pay"].as_u64().map_or(false, |k| (k as usize) < self.pays.len() && self.pays[k as usize].dst == d);
+			// (a peer may close its channel with the node that is down: only the acting side `a` counts there)
+			let peer_b = names("b") && !matches!(name, "force_close" | "mon_broadcast");
+			if !restart && (names("node") || names("from") || names("to") || names("a") || peer_b || pay_there || name == "proj" || name == "kill") {
+				self.skipped += 1;
+				return;
+			}
+		}
 		if matches!(name, "fee" | "config") {
 			for i in 0..n { let cids: Vec<ChannelId> = self.nodes[i].node.list_channels().iter().map(|c| c.channel_id).collect(); for cid in cids { self.dust_cap(i, &cid); } }
 		}
@@ -1469,10 +1511,10 @@ impl Net {
 				let rounds = op["blocks"].as_u64().unwrap_or(260);
 				for round in 0..rounds {
 					// "should be called occasionally (once every handful of blocks or on startup)"
-					if round % 40 == 39 || round + 2 == rounds { for i in 0..n { self.nodes[i].chain_monitor.chain_monitor.archive_fully_resolved_channel_monitors(); } self.drain(); }
+					if round % 40 == 39 || round + 2 == rounds { for i in 0..n { if self.down == Some(i) { continue; } self.nodes[i].chain_monitor.chain_monitor.archive_fully_resolved_channel_monitors(); } self.drain(); }
 					self.mine_block();
 					for i in 0..n {
-						if slow.contains(&i) { continue; }
+						if slow.contains(&i) || self.down == Some(i) { continue; }
 						let pend = self.persisters[i].pending.lock().unwrap().clone();
 						for (c, id) in pend {
 							self.persisters[i].pending.lock().unwrap().retain(|x| *x != (c, id));
@@ -1532,8 +1574,61 @@ impl Net {
 					}
 				} else { did = false; }
 			},
+			"claim_onchain" => {
+				// the recipient knows the preimage and its channel is being resolved on chain: it hands the preimage to its
+				// monitors (not to the manager, which would refuse an HTLC that is not irrevocably committed yet) and the
+				// monitors claim whatever HTLC outputs of the confirmed commitment they can -- what a next hop that is not
+				// this library's manager may do with an HTLC the forwarding node has committed to
+				let k = op["pay"].as_u64().unwrap() as usize;
+				if k < self.pays.len() {
+					let (dst, pre, hash) = (self.pays[k].dst, self.pays[k].preimage, self.pays[k].hash);
+					let h = self.hash(&hash.0);
+					let open: HashSet<ChannelId> = self.nodes[dst].node.list_channels().iter().map(|c| c.channel_id).collect();
+					let closed: Vec<ChannelId> = self.nodes[dst].chain_monitor.chain_monitor.list_monitors().into_iter().filter(|c| !open.contains(c)).collect();
+					if closed.is_empty() { did = false; } else {
+						let height = self.nodes[dst].node.current_best_block().height;
+						self.ev(json!({"ev":"claim_onchain","node":dst,"hash":h,"height":height}));
+						let pool_before: HashSet<bitcoin::Txid> = self.mempool.iter().map(|m| m.0.compute_txid()).collect();
+						for cid in closed {
+							let node = &self.nodes[dst];
+							if let Ok(mon) = node.chain_monitor.chain_monitor.get_monitor(cid) {
+								lightning::verif::monitor::provide_preimage(&*mon, &hash, &pre, &node.tx_broadcaster, node.fee_estimator, &node.logger);
+							}
+						}
+						self.drain();
+						let fresh: Vec<bitcoin::Transaction> = self.mempool.iter().filter(|m| !pool_before.contains(&m.0.compute_txid()) && self.tx_owner.get(&m.0.compute_txid()) == Some(&dst)).map(|m| m.0.clone()).collect();
+						for tx in fresh { for inp in tx.input.iter() { self.onchain_claims.push((inp.previous_output, dst, h)); } }
+					}
+				} else { did = false; }
+			},
+			"kill" => {
+				// the node's process dies: its peers lose the connection; whatever happens until the `crash` that
+				// restarts it (closes by its peers, blocks) happens without it
+				let i = op["node"].as_u64().unwrap() as usize;
+				if i < n && self.down.is_none() {
+					self.down = Some(i);
+					self.ev(json!({"ev":"kill","node":i}));
+					for j in 0..n {
+						if j == i { continue; }
+						let key = (i.min(j), i.max(j));
+						if *self.connected.get(&key).unwrap_or(&false) {
+							self.connected.insert(key, false);
+							let la = self.queues.get(&(key.0, key.1)).map(|q| q.len()).unwrap_or(0);
+							let lb = self.queues.get(&(key.1, key.0)).map(|q| q.len()).unwrap_or(0);
+							self.ev(json!({"ev":"disconnect","a":key.0,"b":key.1,"lost_ab":la,"lost_ba":lb}));
+							self.queues.remove(&(i, j));
+							self.queues.remove(&(j, i));
+							if let Some(cid) = self.chan_ids.get(&key).cloned() { let c = self.chan(&cid); self.reest_seen.remove(&(j, c)); self.reest_seen.remove(&(i, c)); }
+							let pi = self.nodes[i].node.get_our_node_id();
+							self.nodes[j].node.peer_disconnected(pi);
+						}
+					}
+					self.drain();
+				} else { did = false; }
+			},
 			"block" => {
 				let k = op["n"].as_u64().unwrap_or(1) as u32;
+				if self.down.is_some() { for _ in 0..k { self.mine_block(); } self.executed += 1; return; }
 				self.ev(json!({"ev":"block","n":k}));
 				for i in 0..n { connect_blocks(&self.nodes[i], k); }
 				self.drain();
@@ -1732,6 +1827,8 @@ impl Net {
 	/// durable monitor (every completed write) or a later in-flight write that happened to land.
 	fn crash(&mut self, i: usize, reload: bool, back: usize, mon_choice: &str, by_chan: &HashMap<usize, String>, rng: &mut StdRng) {
 		let n = self.nodes.len();
+		let was_down = self.down == Some(i);
+		if was_down { self.down = None; }
 		// (a refusal after the restart is a new fact: it is recorded again)
 		self.refused_logged.retain(|x| x.0 != i);
 		// the node's peers lose the connection
@@ -1839,6 +1936,13 @@ impl Net {
 			let mgr_h = self.nodes[i].node.current_best_block().height;
 			let later: Vec<bitcoin::Block> = self.nodes[i].blocks.lock().unwrap().iter().filter(|(_, h)| *h > mgr_h).map(|(b, _)| b.clone()).collect();
 			for b in later { connect_block(&self.nodes[i], &b); }
+			if was_down {
+				if let Some((sw, _, _)) = self.sweepers[i] {
+					use lightning::chain::Listen;
+					let all: Vec<(bitcoin::Block, u32)> = self.nodes[i].blocks.lock().unwrap().clone();
+					for (b, h) in all { if sw.current_best_block().height + 1 == h { sw.block_connected(&b, h); } }
+				}
+			}
 		}
 		self.drain();
 		if reload { self.proj_ext(i, false, true); }
@@ -1967,7 +2071,7 @@ fn build_net(run: u64, cfg: &Value, log: &Log) -> Net {
 	let mut net = Net {
 		nodes, cfgs, persisters, queues: HashMap::new(), connected, log: log.clone(), chans, hashes, points: Vec::new(),
 		pays: Vec::new(), scids, chan_ids, run, feerate: vec![feerate0; n], executed: 0, skipped: 0,
-		funding_txids: Vec::new(), extra_funding: Vec::new(), extra_broadcast: Vec::new(), mgr_snaps: vec![Vec::new(); n], mgr_clean: vec![Vec::new(); n], mgr_msgs: vec![Vec::new(); n], msgs_emitted: vec![0; n], mgr_evheld: vec![Vec::new(); n], mgr_writes: vec![Vec::new(); n], dirty: vec![HashSet::new(); n], mgr_held: vec![Vec::new(); n], reest_seen: HashSet::new(), tamper_cs: None, corrupt_onion: None, stat_ids: HashMap::new(), dustcap: HashMap::new(), signer_used: false, hold_events: vec![false; n], defer_drain: false, intercepts: Vec::new(), intercept_next: HashMap::new(), batch_wait: None, hold_failed_only: vec![false; n], refused_logged: HashSet::new(), settling: false, sweepers: (0..n).map(|_| None).collect(), mempool: Vec::new(), spent: HashSet::new(), confirmed: HashSet::new(), saved_idx: vec![None; n], node_cfgs, txids, edges: edges.clone(),
+		funding_txids: Vec::new(), extra_funding: Vec::new(), extra_broadcast: Vec::new(), mgr_snaps: vec![Vec::new(); n], mgr_clean: vec![Vec::new(); n], mgr_msgs: vec![Vec::new(); n], msgs_emitted: vec![0; n], mgr_evheld: vec![Vec::new(); n], mgr_writes: vec![Vec::new(); n], dirty: vec![HashSet::new(); n], mgr_held: vec![Vec::new(); n], reest_seen: HashSet::new(), tamper_cs: None, corrupt_onion: None, stat_ids: HashMap::new(), dustcap: HashMap::new(), signer_used: false, hold_events: vec![false; n], defer_drain: false, down: None, intercepts: Vec::new(), intercept_next: HashMap::new(), batch_wait: None, hold_failed_only: vec![false; n], refused_logged: HashSet::new(), settling: false, sweepers: (0..n).map(|_| None).collect(), mempool: Vec::new(), onchain_claims: Vec::new(), tx_owner: HashMap::new(), onchain_reported: HashSet::new(), spent: HashSet::new(), confirmed: HashSet::new(), saved_idx: vec![None; n], node_cfgs, txids, edges: edges.clone(),
 	};
 	for i in 0..n {
 		let _ = net.nodes[i].node.get_and_clear_needs_persistence();
